@@ -171,7 +171,11 @@ type errorExtra struct {
 // When debug is false, stack traces and file paths are omitted to avoid leaking
 // implementation details to clients.
 func buildErrorExtra(err error, debug bool) string {
-	errType := fmt.Sprintf("%T", err)
+	// Anything that is not a typed framework error is a RuntimeError on the
+	// wire, like a panic. A Go type name ("*errors.errorString",
+	// "*fmt.wrapError") means nothing to a client in another language and
+	// changes with the implementation.
+	errType := "RuntimeError"
 
 	// Prefer the wire-stable class name for typed errors.
 	switch e := err.(type) {
